@@ -529,7 +529,7 @@ static ssize_t do_read(int fd,Obj&o,const struct iovec*iov,int n){
 	if(o.kind!=Obj::STREAM){ errno=ENOTCONN; return -1; }
 	size_t total=0; for(int i=0;i<n;i++) total+=iov[i].iov_len;
 	if(P.p_eintr && frng.chance(P.p_eintr)){ S.eintr++; trace_mix(0xE1); tracef("read %d EINTR",fd); errno=EINTR; return -1; }
-	if(*o.reset){ errno=ECONNRESET; S.resets++; tracef("read %d ECONNRESET",fd); return -1; }
+	if(*o.reset && o.rx->empty()){ errno=ECONNRESET; S.resets++; tracef("read %d ECONNRESET",fd); return -1; }   // like Linux: what was received before the RST is still delivered, then the error
 	if(o.rx->rd_closed && o.rx->empty()) return 0;
 	if(o.nonblock && !o.rx->empty() && P.p_spurious && frng.chance(P.p_spurious)){ S.spurious++; trace_mix(0xE2); errno=EAGAIN; tracef("read %d spurious EAGAIN",fd); return -1; }
 	while(o.rx->empty()){
@@ -537,7 +537,7 @@ static ssize_t do_read(int fd,Obj&o,const struct iovec*iov,int n){
 		if(o.nonblock){ errno=EAGAIN; S.eagain_r++; tracef("read %d EAGAIN",fd); return -1; }
 		Obj*p=&o; int64_t dl=o.rcvtimeo_us>0? now_us()+o.rcvtimeo_us : -1;
 		if(!block([p]{return !p->rx->empty()||p->rx->wr_closed||*p->reset;},dl,"read")){ errno=EAGAIN; return -1; }
-		if(*o.reset){ errno=ECONNRESET; S.resets++; return -1; }
+		if(*o.reset && o.rx->empty()){ errno=ECONNRESET; S.resets++; return -1; }
 	}
 	if(total==0) return 0;
 	size_t k=std::min(o.rx->size(),total);
@@ -593,7 +593,9 @@ extern "C" int __wrap_setsockopt(int fd,int lvl,int name,const void*val,socklen_
 extern "C" int __wrap_getsockopt(int fd,int lvl,int name,void*val,socklen_t*len){ IGN; SIMFD(o,fd); if(!o) return __real_getsockopt(fd,lvl,name,val,len);
 	if(val&&len&&*len>=sizeof(int)){ *(int*)val=0; *len=sizeof(int); } return 0; }
 extern "C" int __wrap_getpeername(int fd,struct sockaddr*sa,socklen_t*len){ IGN; SIMFD(o,fd); if(!o) return __real_getpeername(fd,sa,len);
-	if(o->kind!=Obj::STREAM){ errno=ENOTCONN; return -1; } fill_addr(*o,sa,len,true); return 0; }
+	if(o->kind!=Obj::STREAM){ errno=ENOTCONN; return -1; } yield(); o=get(fd); if(!o){ errno=EBADF; return -1; }
+	if(o->reset && *o->reset){ S.getpeername_enotconn++; tracef("getpeername %d ENOTCONN (connection was reset)",fd); errno=ENOTCONN; return -1; }   // Linux: a TCP socket that received RST is in state CLOSE, inet_getname() answers ENOTCONN
+	fill_addr(*o,sa,len,true); return 0; }
 extern "C" int __wrap_getsockname(int fd,struct sockaddr*sa,socklen_t*len){ IGN; SIMFD(o,fd); if(!o) return __real_getsockname(fd,sa,len); fill_addr(*o,sa,len,false); return 0; }
 
 // ---------------------------------------------------------------- reactors (level triggered)
